@@ -153,3 +153,27 @@ Theorem C13_back_family_same_behaviour_with_stored_events : forall cf1 cf2 md l,
   Forall2 same_step_strict (run cf1 md l) (run cf2 md l).
 Proof. exact back_family_same_queue_behaviour. Qed.
 Print Assumptions C13_back_family_same_behaviour_with_stored_events.
+
+(* the back family and backmp11 (any compile policy / dispatch strategy), same switch policy, outermost machine without
+   history: on histories in which start() and stop() alternate, events are sent and stored while the machine is started
+   and nothing is pending at stop() (`qlive`), every stored occurrence is dispatched by both at the same point with the
+   same behaviour invocations, arguments and configurations; only the numeric result code and what the outermost entry
+   behaviour reads at a restart can differ.  Outside `qlive` they differ: finding F28 (Properties_C04). *)
+Theorem C13_back_family_backmp11_same_behaviour_with_stored_events : forall cfB cfM md l,
+  back_family cfB md -> c_be cfM = Mp11 -> c_pol cfB = c_pol cfM -> flat_events md -> core (md_root md) ->
+  m_hist (md_root md) = HNone -> back_start_queues = true -> mp11_entry_throw_resets = true ->
+  qlive false false l -> 2 * count_enq l + depth (md_root md) + 3 <= default_fuel ->
+  Forall2 same_step (run cfB md l) (run cfM md l).
+Proof. exact back_family_mp11_same_queue_behaviour. Qed.
+Print Assumptions C13_back_family_backmp11_same_behaviour_with_stored_events.
+
+Example C13_stored_events_example :
+  let l := [OStart [] []; OEnqueue (Evt 4 2); OEnqueue (Evt 5 3); OProcess (Evt 6 4) [10] []; OEnqueue (Evt 6 5);
+            ODrain [4] []; OStop []; OStart [1] []; OEnqueue (Evt 4 7); ODrain [1] []] in
+  qlive false false l /\ 2 * count_enq l + depth (md_root ex_core_md) + 3 <= default_fuel /\
+  back_family (Cfg Back true 0 false) ex_core_md /\
+  flat_map fst (run (Cfg Back true 0 false) ex_core_md l) <> [].
+Proof.
+  cbn zeta. split; [cbn; repeat split; discriminate|]. split; [vm_compute; repeat constructor|].
+  split; [exact I | vm_compute; discriminate].
+Qed.
